@@ -4,6 +4,9 @@ import json
 
 # id -> (technique, level text, level_note, design_ref)
 CLAIMED = {
+ "C19": ("stateless interleaving exploration (E4): real goroutines under a cooperative scheduler with scheduling points at every instrumented access to written package-level state and every sync/atomic operation; vector-clock race decision; solo-result comparison; deep state snapshots; free-running -race pass as auxiliary",
+         "The current tree is re-instrumented on every run (go/ast + go/types over the library and its four first-party dependencies); all ordered pairs and (f,f,f) triples of 46 representative calls on shared arguments are explored over all interleavings within the deviation bound (2 quick, unbounded thorough); L2 digests every package-level variable and every shared argument around each solo call; L3 runs the same calls free-running under the race detector.",
+         "Trusted: the instrumenter (a missed access weakens L1 only; L2/L3 do not depend on it), the sync/atomic shims, the cooperative scheduler. Hardware memory ordering is not modelled. Reads of variables that no instrumented statement writes are not scheduling points (they are independent of everything).", "4/C19"),
  "C14": ("stateless exploration (E1) with map-iteration starts owned as environment choices (deviation bound 1 quick / 2 thorough) over segments x radii x skip flag; relational oracle + independent ECEF distance",
          "For every input of the alphabet every execution within the deviation bound is checked: duplicate-free, requested zooms, superset of the line, radius 0 = line, added IDs inside the maximal fitted-layer box, measured subset of skipped, no added voxel beyond the radius by an independent segment-to-quadrilateral distance, and identical result across executions.",
          "Trusted: runtime overlay (7 patched files), ref.SegQuadDist/ECEF. Lines <= 12 voxels, radii <= 2.5 voxel widths and below 80% of the largest reachable chord (the layer fit does not terminate beyond).", "4/C14"),
